@@ -170,9 +170,14 @@ def design_runs(rep, quick):
     # the contract holds on the model with every admissible window/pick
     r = core.tlc_mc("MC_Selector", CFG.format(maxu=3, maxl=2, maxt1=1, maxt2=0, nblocks=2, wmax=2, explore="TRUE",
                                               fallback="FALSE", overlap="TRUE", emit=""),
-                    f"{rep.pid}_design", workers=6, timeout=1200)
+                    f"{rep.pid}_design", workers=6, timeout=1200, coverage=True)
     rep.add_tlc(r)
     rep.extra["design_states"] = r.distinct
+    # vacuity: every action of the conforming machine was taken (the deviation action is disabled here on purpose)
+    rep.extra["design_action_coverage"] = r.coverage
+    idle = [a for a, (d, g) in r.coverage.items() if g == 0 and a not in ("TakeWithUnionFallback",)]
+    if r.coverage and idle:
+        raise core.ToolError(f"design model: actions never taken: {idle}")
     # and the pinned code's union fallback breaks Sound on the model
     rd = core.tlc_mc("MC_Selector", CFG.format(maxu=2, maxl=1, maxt1=0, maxt2=0, nblocks=1, wmax=3, explore="TRUE",
                                                fallback="TRUE", overlap="FALSE", emit=""),
